@@ -141,6 +141,71 @@ def replay_tick_step(mi, p, a, s0, s1, s2, s3, s4, s5, now, maxint, v0, v1):
   return _tick_step(real_buffers, mi, p, a, s0, s1, s2, s3, s4, s5, now, maxint, v0, v1)
 
 
+_PERMS4 = [(0, 1, 2, 3), (3, 2, 1, 0), (1, 2, 3, 0), (2, 0, 3, 1), (0, 3, 1, 2), (3, 0, 2, 1), (1, 3, 0, 2), (2, 3, 0, 1)]
+
+
+def _late_after_flush(mod, n, oi, maxint, k, v, tail):
+  """History through the real input(): datapoints for n consecutive intervals arrive in some order, a flush
+  emits them (and trims down to MAX_AGGREGATION_INTERVALS + 2 buffers), then one more datapoint arrives for
+  interval k - possibly one that has just been trimmed - and, optionally, one for the newest interval;
+  the next flush must emit interval k with exactly the values received since it was last emitted."""
+  mod.BufferManager.buffers.clear()
+  buf = mod.MetricBuffer('agg.out')
+  buf.aggregation_frequency = F
+  buf.aggregation_func = real_rules.AGGREGATION_METHODS['sum']
+  buf.compute_task = _Task()
+  buf.configured = True
+  mod.BufferManager.buffers['agg.out'] = buf
+  sset('MAX_AGGREGATION_INTERVALS', maxint)
+  order = [i for i in _PERMS4[oi] if i < n]
+  for i in order:
+    buf.input((i * F + 1, 10 + i))
+  mod.time = _Clock((n - 1) * F + 2)
+  with Recorder(events.metricGenerated) as rec:
+    buf.compute_value()
+  first = sorted((dp[0], dp[1]) for (m, dp) in rec.items)
+  if first != [(i * F, 10 + i) for i in range(n)]:
+    raise AssertionError('first flush emitted %r' % (first,))
+  if len(buf.interval_buffers) > maxint + 2:
+    raise AssertionError('more than MAX_AGGREGATION_INTERVALS + 2 buffers after a flush')
+  if n > maxint + 2:
+    cover('trimmed')
+  buf.input((k * F + 3, v))
+  if tail:
+    buf.input(((n - 1) * F + 4, 1))
+  with Recorder(events.metricGenerated) as rec2:
+    buf.compute_value()
+  second = sorted((dp[0], dp[1]) for (m, dp) in rec2.items)
+  want = {k * F: v}
+  if tail:
+    want[(n - 1) * F] = want.get((n - 1) * F, 0) + 1 + (0 if k == n - 1 else 0)
+  # an interval emitted before and still buffered is re-emitted over all its values; a trimmed one starts afresh
+  exp = []
+  for interval in sorted(want):
+    i = interval // F
+    kept = (n - 1 - i) < (maxint + 2)
+    exp.append((interval, want[interval] + ((10 + i) if kept else 0)))
+  cover('late')
+  if second != exp:
+    raise AssertionError('second flush emitted %r, expected %r' % (second, exp))
+  return True
+
+
+def C08_late_after_flush(n: int, oi: int, maxint: int, k: int, v: int, tail: bool) -> bool:
+  """
+  pre: 2 <= n <= 4
+  pre: 0 <= oi < len(_PERMS4)
+  pre: 0 <= maxint <= 2
+  pre: 0 <= k < n
+  post: __return__
+  """
+  return _late_after_flush(BUF, n, oi, maxint, k, v, tail)
+
+
+def replay_late_after_flush(n, oi, maxint, k, v, tail):
+  return _late_after_flush(real_buffers, n, oi, maxint, k, v, tail)
+
+
 def _input_step(mod, p, a, k, r, value):
   present = [((p >> i) & 1) == 1 for i in range(6)]
   inactive = [((a >> i) & 1) == 1 for i in range(6)]
@@ -485,6 +550,11 @@ HARNESSES = [
              'carbon.aggregator.buffers:MetricBuffer.close', 'carbon.aggregator.rules:AGGREGATION_METHODS'],
     assumptions=_ASSUME + ['inductive step: symbolic subset of 5 (quick) / 6 (thorough) interval buffers created in a non-sorted order, each active or inactive since a '
                            'symbolic interval; unbounded symbolic clock; MAX_AGGREGATION_INTERVALS 0..2 / 0..3; every aggregation method']),
+  H('C08_late_after_flush', quick=dict(timeout=280, shards=[('n%d' % k, 'n == %d' % k) for k in (2, 3, 4)]), covers=['trimmed', 'late'], replay='replay_late_after_flush',
+    twin_pre=['n == 4 and maxint == 1'],
+    encodes=['carbon.aggregator.buffers:MetricBuffer.input', 'carbon.aggregator.buffers:MetricBuffer.compute_value (trimming)', 'carbon.aggregator.buffers:IntervalBuffer'],
+    assumptions=_ASSUME + ['history through the real input(): 2-4 consecutive intervals filled in one of 8 orders, flush, one late datapoint (symbolic value) for a symbolic interval '
+                           '(kept or just trimmed) and optionally one for the newest interval, flush; MAX_AGGREGATION_INTERVALS 0..2; method sum']),
   H('C08_input_step', quick=dict(timeout=280, extra_pre=['p < 16 and a < 16']), thorough=dict(timeout=900), covers=['existing_interval', 'new_interval'],
     replay='replay_input_step',
     encodes=['carbon.aggregator.buffers:MetricBuffer.input', 'carbon.aggregator.buffers:IntervalBuffer.input'], assumptions=_ASSUME),
